@@ -328,6 +328,8 @@ class Chain:
         self.roots = [Certificate.load(p) for p in (roots or certs[:1])]
         self.sp = get_signature_provider(local_file_key=key)
         self.key_path = key
+        self.cert_paths = list(certs)
+        self.root_paths = list(roots or certs[:1])
         self.name = os.path.basename(certs[-1])
 
     def cert_block(self):
@@ -662,6 +664,22 @@ def run(ck, only_cases=None):
                        "the API path; ROM model on the CLI output = content of the configuration; non-trivial = distinct case")
         for i in range(ck.budget(8, 80)):
             check_config_path(ck, drv, sc, chains, i)
+        sb = ck.stream("cli_path", "generated BD command files (1..3 sections with explicit ids; load from named / extern sources, word "
+                       "fill, ranged byte fill, erase, enable, version_check, jump, call, reset, load fuse, `keywrap`, `encrypt` with an "
+                       "enabled and a disabled key blob; all options incl. dek/mac/nonce/timestamp) through click's CliRunner: "
+                       "`nxpimage sb21 export -c x.bd -k -s -S -R -h` -> the ROM model accepts the file and reports the content of the BD "
+                       "file (keywrap: the LOAD unwraps under the OTFAD KEK to key/counter/start/flags of the key blob; encrypt: the LOAD "
+                       "decrypts to the source data); `nxpimage sb21 parse` on that file writes exactly the LOAD data / certificates and "
+                       "fails for a wrong KEK and for one flipped byte; `nxpimage sb21 convert` + `export` of the converted YAML gives the "
+                       "same file; non-trivial = distinct case")
+        for i in range(ck.budget(5, 60)):
+            check_cli_path(ck, drv, sb, chains, i)
+    if only_cases is None:
+        sk = ck.stream("kek_len", "BootImageV21/V20.parse of a well-formed file with a KEK of length 0, 1, 15, 17, 24, 31, 33, 48, 64 (24: a "
+                       "legal AES length, wrong key): always an exception, never content (theorem parser_illegal_kek_len); error / no error "
+                       "= the Lean parser model; non-trivial = distinct (file, length)")
+        for case in [c for c in cases if c["version"] == 21][:ck.budget(3, 30)] + [c for c in cases if c["version"] == 20][:ck.budget(3, 30)]:
+            check_kek_len(ck, drv, sk, case, chains, BootImageV20, BootImageV21)
     n_flip = ck.budget(8, 16)
     for case in cases:
         forced = case.pop("_forced", None)
@@ -783,6 +801,336 @@ def check_config_path(ck, drv, s, chains, idx):
             s.expect(okr, case, "ROM model does not accept the CLI's output with the content of the configuration", _diff(ans, want))
     import shutil
     shutil.rmtree(tmp, ignore_errors=True)
+
+
+# ---------------------------------------------------------------------------------------------- BD file / CLI path (phase 3)
+KEYBLOBS = [
+    {"id": 0, "start": 0x08001000, "end": 0x08002FFF, "key": "000102030405060708090A0B0C0D0E0F", "counter": "0123456789ABCDEF"},   # ADE|VLD
+    {"id": 1, "start": 0x08004000, "end": 0x080043FD, "key": "0F0E0D0C0B0A09080706050403020100", "counter": "FEDCBA9876543210"},   # ADE clear
+    {"id": 2, "start": 0x08008000, "end": 0x08008FFF, "key": "A0A1A2A3A4A5A6A7A8A9AAABACADAEAF", "counter": "1122334455667788", "byteSwap": 1},
+]
+
+
+def gen_bd_cmd(rng, nsrc):
+    """(BD statement, expectation).  Expectation: a command spec of the API path (`exp_view` gives the loader's view) with,
+    for keywrap / encrypt, a 7th element describing what the LOAD data must be."""
+    a = lambda: rng.choice([0, 0x10, 0x1000, 0x20001000, 0x80000000, 0xFFFFFFF0, rng.getrandbits(32) & ~3, rng.getrandbits(16)])  # noqa: E731
+    k = rng.choice(["L", "L", "FW", "FB", "E", "M", "V", "J", "C", "R", "P", "KW", "EN", "EN"])
+    if k == "L":
+        i = rng.randrange(nsrc)
+        ad = a()
+        return f"load src{i} > {ad:#x};", ["L", ad, 0, 0, None, None, ("src", i)]
+    if k == "FW":
+        ad, pat = a(), rng.choice([0xC1503057, 0x20000000, 0x01000000, 0xFFFFFFFF, 0x1000000 + rng.getrandbits(24), rng.getrandbits(32) | 0x1000000])
+        return f"load {pat:#x} > {ad:#x};", ["F", ad, pat, 4]
+    if k == "FB":
+        ad, b, n = rng.choice([0, 0x2000, 0x20000000, 0xFFFF0000]), rng.randrange(1, 256), 4 * rng.choice([1, 2, 0x100, 0x400, rng.randrange(1, 0x3000)])
+        return f"load {b:#x}.b > {ad:#x}..{ad + n:#x};", ["F", ad, b, n]
+    if k == "E":
+        ad, n = rng.choice([0, 0x8000000, 0x10000, rng.getrandbits(28)]), rng.choice([1, 0x1000, 0x10000, rng.getrandbits(24) + 1])
+        return f"erase {ad:#x}..{ad + n:#x};", ["E", ad, n, 0, 0]
+    if k == "M":
+        ad, m = a(), rng.choice([9, 8, 1, 0x10, 0x101, 0x110])
+        return f"enable @{m:#x} {ad:#x};", ["M", ad, 4, m]
+    if k == "V":
+        t, v = rng.choice([0, 1]), rng.choice([0, 1, 0xAFBC, 0xFFFFFFFF, rng.getrandbits(32)])
+        return f"version_check {'sec' if t == 0 else 'nsec'} {v:#x};", ["V", t, v]
+    if k == "J":
+        ad = a()
+        return f"jump {ad:#x};", ["J", ad, 0, None]
+    if k == "C":
+        ad = a()
+        return f"call {ad:#x};", ["C", ad, 0]
+    if k == "R":
+        return "reset;", ["R"]
+    if k == "P":
+        ad, w = a(), rng.choice([1, 0x55, 0xAABB, 0xFFFFFFFF, rng.getrandbits(32) | 1])
+        return f"load fuse {w:#x} > {ad:#x};", ["P", ad, 4, w, 0, 0]
+    if k == "KW":
+        kb, ad, kek = rng.choice(KEYBLOBS), rng.choice([0x08000000, 0x08000040, 0x08000400, a()]), rng.randbytes(16).hex()
+        return f"keywrap ({kb['id']}) {{ load {{{{{kek}}}}} > {ad:#x}; }}", ["L", ad, 0, 0, 64, None, ("kw", kb["id"], kek)]
+    kb = rng.choice(KEYBLOBS)
+    i = rng.randrange(nsrc)
+    ad = kb["start"] + 0x400 * rng.randrange(0, max(1, (kb["end"] - kb["start"]) // 0x400 - 1))
+    return f"encrypt ({kb['id']}) {{ load src{i} > {ad:#x}; }}", ["L", ad, 0, 0, None, None, ("enc", kb["id"], i)]
+
+
+def bd_text(case, sources, externs):
+    pv, cv = case["pv"], case["cv"]
+    o = [f"    flags = {case['flags']:#x};", f"    buildNumber = {case['bn']:#x};", f"    productVersion = \"{ver_str(pv)}\";",
+         f"    componentVersion = \"{ver_str(cv)}\";", "    secureBinaryVersion = \"2.1\";", "    zeroPadding = True;",
+         f"    dek = \"{case['dek']}\";", f"    mac = \"{case['mac']}\";", f"    nonce = \"{case['nonce']}\";", f"    timestamp = {case['ts']};"]
+    src = []
+    for i, path in enumerate(sources):
+        src.append(f"    src{i} = extern({externs.index(path)});" if path in externs else f"    src{i} = \"{path}\";")
+    kbs = []
+    for kb in KEYBLOBS:
+        extra = f",\n        byteSwap = {kb['byteSwap']}" if "byteSwap" in kb else ""
+        kbs.append(f"keyblob({kb['id']}){{\n    (\n        start = {kb['start']:#010x},\n        end = {kb['end']:#010x},\n"
+                   f"        key = \"{kb['key']}\",\n        counter = \"{kb['counter']}\"{extra}\n    )\n}}")
+    secs = []
+    for s in case["sections"]:
+        secs.append(f"section ({s['uid']}) {{\n" + "\n".join("    " + st for st in s["bd"]) + "\n}")
+    return "options {\n" + "\n".join(o) + "\n}\nsources {\n" + "\n".join(src) + "\n}\n" + "\n".join(kbs) + "\n" + "\n".join(secs) + "\n"
+
+
+def rom_sections(ans):
+    """sections of a ROM-model answer: [(uid, flags, mac count, [command text, ...]), ...]"""
+    import re
+    out = []
+    for part in rom_fields(ans)["sections"].split("|"):
+        uid, fl, hc, body = part.split(":", 3)
+        out.append((int(uid), int(fl), int(hc), re.findall(r"[A-Za-z]+(?:\([^)]*\))?", body[1:-1])))
+    return out
+
+
+def keywrap_ok(data, kb, kek_hex):
+    """RFC 3394 unwrap (cryptography, directly) of the wrapped OTFAD key blob: key, counter, start address, flag bits and
+    1 KiB page of the end address are the configured ones; the rest of the 64 bytes is zero"""
+    from cryptography.hazmat.primitives.keywrap import aes_key_unwrap
+    if len(data) != 64 or any(data[48:]):
+        return False
+    try:
+        pt = aes_key_unwrap(bytes.fromhex(kek_hex), data[:48])
+    except Exception:  # noqa: BLE001
+        return False
+    endw = int.from_bytes(pt[28:32], "little")
+    return (pt[:16] == bytes.fromhex(kb["key"]) and pt[16:24] == bytes.fromhex(kb["counter"]) and
+            int.from_bytes(pt[24:28], "little") == kb["start"] and endw & 7 == kb["end"] & 7 and endw >> 10 == (kb["end"] - 1) >> 10)
+
+
+def encrypt_ok(data, kb, addr, plain):
+    """`encrypt`: with ADE and VLD set the LOAD carries AES-CTR ciphertext of the source aligned to 512 bytes (checked by
+    running the OTFAD key blob's own encryption over it again: CTR is an involution); otherwise the plain source"""
+    from spsdk.utils.crypto.otfad import KeyBlob
+    if kb["end"] & 3 != 3:
+        # SB21Helper._encrypt builds CmdLoad without `zero_filling`: the bytes behind the data (known finding
+        # C04-load-count-padded: the byte count is the padded length) are random even with `zeroPadding`
+        return data[:len(plain)] == plain and len(data) == (len(pad16(plain)) if LOAD_PADDED else len(plain))
+    want = plain + bytes((512 - len(plain) % 512) % 512)
+    if len(data) != len(want) or data == want:
+        return False
+    blob = KeyBlob(start_addr=kb["start"], end_addr=kb["end"], key=bytes.fromhex(kb["key"]), counter_iv=bytes.fromhex(kb["counter"]))
+    back = pyres(lambda: blob.encrypt_image(base_address=addr, data=data, byte_swap=bool(kb.get("byteSwap")), counter_value=addr))
+    return back == ("ok", want)
+
+
+def cli_cmd_ok(text, sp, srcs):
+    """one command of the ROM model's answer against the expectation of the BD statement"""
+    extra = sp[6] if len(sp) > 6 else None
+    if extra is None or extra[0] == "src":
+        return text == bd_exp_view(sp, srcs)
+    if not (text.startswith("load(") and text.endswith(")")):
+        return False
+    f = text[5:-1].split(",")
+    if len(f) != 3 or f[0] != str(sp[1]) or f[1] != "0":
+        return False
+    data = bytes.fromhex(f[2]) if f[2] != "-" else b""
+    kb = KEYBLOBS[extra[1]]
+    return keywrap_ok(data, kb, extra[2]) if extra[0] == "kw" else encrypt_ok(data, kb, sp[1], srcs[extra[2]])
+
+
+def bd_exp_view(sp, srcs):
+    if sp[0] == "L":
+        d = srcs[sp[6][1]]
+        return f"load({sp[1]},0,{hexs(d if not LOAD_PADDED else pad16(d))})"
+    return exp_view(sp)
+
+
+def bd_load_len(sp, srcs):
+    """byte length of the LOAD data a BD statement produces"""
+    extra = sp[6]
+    if extra[0] == "src":
+        return len(srcs[extra[1]])
+    if extra[0] == "kw":
+        return 64
+    n = len(srcs[extra[2]])
+    return (n + 511) // 512 * 512 if KEYBLOBS[extra[1]]["end"] & 3 == 3 else n
+
+
+def check_cli_path(ck, drv, s, chains, idx):
+    """BD file -> `nxpimage sb21 export` -> ROM model; `nxpimage sb21 parse`; `nxpimage sb21 convert` + export."""
+    import shutil
+    from click.testing import CliRunner
+    from spsdk.apps import nxpimage
+
+    rng = ck.rng
+    tmp = os.path.join(os.environ.get("VERIF_SCRATCH", "/tmp"), f"c04cli{idx}_{os.getpid()}")
+    shutil.rmtree(tmp, ignore_errors=True)
+    os.makedirs(tmp)
+    try:
+        _check_cli_path(ck, drv, s, chains, idx, tmp, rng, CliRunner, nxpimage)
+    finally:
+        shutil.rmtree(tmp, ignore_errors=True)
+
+
+def _check_cli_path(ck, drv, s, chains, idx, tmp, rng, CliRunner, nxpimage):
+    case = gen_image(rng, 21, big=False, chains=chains)
+    case["flags"] = rng.choice([0x8, 0x8008, 0x8008, 0xC, 0x800A])
+    if case["bn"] == 0:
+        case["bn"] = 1
+    nsrc = rng.choice([1, 2, 3])
+    srcs = [load_data(rng.choice([1, 4, 16, 37, 48, 511, 512, 600, rng.randrange(1, 1500)]), rng.randrange(1 << 30)) for _ in range(nsrc)]
+    paths = []
+    for i, d in enumerate(srcs):
+        paths.append(os.path.join(tmp, f"src{i}.bin"))
+        with open(paths[-1], "wb") as fh:
+            fh.write(d)
+    externs = [p for p in paths if rng.random() < 0.4]
+    nsec = rng.choice([1, 2, 3])
+    uids = rng.sample([0, 1, 2, 7, 0x1234, 0xFFFFFFFF, rng.getrandbits(32)], nsec)
+    case["sections"] = []
+    for u in uids:
+        pairs = [gen_bd_cmd(rng, nsrc) for _ in range(rng.choice([1, 2, 4, 7, 10]))]
+        cmds = []
+        for _, sp in pairs:
+            if sp[0] == "L":
+                sp[4] = bd_load_len(sp, srcs)
+            cmds.append(sp)
+        case["sections"].append({"uid": u, "hmac": 1, "cmds": cmds, "bd": [st for st, _ in pairs]})
+    if idx == 0:      # one fixed case per run: ranged fill + file load + erase, self-signed chain, nothing random
+        case["chain"] = 0
+        fixed = [("load 0x55.b > 0x2000..0x3000;", ["F", 0x2000, 0x55, 0x1000]), ("load src0 > 0x1000;", ["L", 0x1000, 0, 0, len(srcs[0]), None, ("src", 0)]),
+                 ("erase 0x8000000..0x8010000;", ["E", 0x8000000, 0x10000, 0, 0])]
+        case["sections"] = [{"uid": 7, "hmac": 1, "cmds": [sp for _, sp in fixed], "bd": [st for st, _ in fixed]}]
+        nsec = 1
+    ch = chains[case["chain"]]
+    bd = os.path.join(tmp, "cmd.bd")
+    with open(bd, "w") as fh:
+        fh.write(bd_text(case, paths, externs))
+    kekf = os.path.join(tmp, "kek.txt")
+    with open(kekf, "w") as fh:
+        fh.write(case["kek"])
+    kinds = sorted({(c[6][0] if len(c) > 6 else c[0]) for sc in case["sections"] for c in sc["cmds"]})
+    shown = {k: v for k, v in case.items() if k != "sections"}
+    shown.update(bd=open(bd).read(), sources=[d.hex() for d in srcs])
+    s.note(shown, cls=f"sections={nsec},kw={int('kw' in kinds)},enc={int('enc' in kinds)},sha={int(bool(case['flags'] & 0x8000))}")
+    sign = ["-k", kekf, "-s", ch.key_path] + [x for p in ch.cert_paths for x in ("-S", p)] + [x for p in ch.root_paths for x in ("-R", p)] + \
+           ["-h", os.path.join(tmp, "hash.bin")]
+    out = os.path.join(tmp, "cli.sb2")
+    res = pyres(lambda: CliRunner().invoke(nxpimage.main, ["sb21", "export", "-c", bd, "-o", out] + sign + externs))
+    okc = res[0] == "ok" and res[1].exit_code == 0 and os.path.isfile(out)
+    s.expect(okc, shown, "`nxpimage sb21 export -c file.bd` fails on a well-formed BD file",
+             res[1].output[-300:] if res[0] == "ok" else res)
+    if not okc:
+        return
+    file = open(out, "rb").read()
+    # ---- ROM model as the oracle on the CLI's file
+    cbr = pyres(lambda: ch.cert_block().export())
+    clen = len(cbr[1]) if cbr[0] == "ok" else 0
+    sha = 32 if case["flags"] & 0x8000 else 0
+    sig_len = ch.cert_block().signature_size
+    cert = file[208: 208 + clen]
+    sig = file[208 + clen + sha: 208 + clen + sha + sig_len]
+    if drv is not None:
+        ans = drv.ask(f"rom21 {case['kek']} {file.hex()}")
+        if not rom_shape_ok(ans, image=True) or not ans.startswith("ok:"):
+            if rom_shape_ok(ans, image=True):
+                s.expect(False, shown, "ROM model refuses the file `nxpimage sb21 export` made from a BD file", ans[:80])
+            else:
+                s.compare(shown, "well-formed answer of the ROM model", str(ans)[:60], "driver answer")
+        else:
+            head_ok = ans.partition(";sections=")[0] == ("ok:" + exp_content(case, cert, sig)).partition(";sections=")[0]
+            got = pyres(lambda: rom_sections(ans))
+            secs_ok = got[0] == "ok" and [(u, f, h, len(c)) for u, f, h, c in got[1]] == \
+                [(sc["uid"], 0x8001, mac_count(sc), len(sc["cmds"])) for sc in case["sections"]]
+            bad = None
+            if secs_ok:
+                for si, sc in enumerate(case["sections"]):
+                    for ci, sp in enumerate(sc["cmds"]):
+                        if bad is None and not cli_cmd_ok(got[1][si][3][ci], sp, srcs):
+                            bad = [si, ci, sc["bd"][ci], got[1][si][3][ci][:120]]
+            s.expect(head_ok and secs_ok and bad is None and verify_obligation(file, rom_fields(ans)) is True, shown,
+                     "ROM model on the output of `nxpimage sb21 export -c file.bd`: header values / sections / a command differ from "
+                     "the BD file's content (or the signature does not verify)",
+                     {"header": head_ok, "sections": secs_ok, "first_bad_command": bad,
+                      "head_diff": _diff(ans.partition(";sections=")[0], ("ok:" + exp_content(case, cert, sig)).partition(";sections=")[0])})
+    # ---- `nxpimage sb21 parse`
+    pdir = os.path.join(tmp, "parsed")
+    res = pyres(lambda: CliRunner().invoke(nxpimage.main, ["sb21", "parse", "-b", out, "-k", kekf, "-o", pdir]))
+    okp = res[0] == "ok" and res[1].exit_code == 0
+    s.expect(okp, shown, "`nxpimage sb21 parse` fails on the file `nxpimage sb21 export` wrote", res[1].output[-300:] if res[0] == "ok" else res)
+    if okp:
+        names = sorted(n for n in os.listdir(pdir) if n.startswith("section_"))
+        want_names, bad = [], None
+        for si, sc in enumerate(case["sections"]):
+            for ci, sp in enumerate(sc["cmds"]):
+                if sp[0] != "L":
+                    continue
+                n = f"section_{si}_load_command_{ci}_data.bin"
+                want_names.append(n)
+                d = pyres(lambda: open(os.path.join(pdir, n), "rb").read())
+                text = f"load({sp[1]},0,{hexs(d[1])})" if d[0] == "ok" else "missing"
+                if bad is None and not cli_cmd_ok(text, sp, srcs) and not (d[0] == "ok" and not LOAD_PADDED and cli_cmd_ok(f"load({sp[1]},0,{hexs(d[1][:sp[4]])})", sp, srcs)):
+                    bad = [n, sc["bd"][ci]]
+        certs_ok = all(pyres(lambda: open(os.path.join(pdir, f"certificate_{k}_der.cer"), "rb").read()) == ("ok", open(p, "rb").read())
+                       for k, p in enumerate(ch.cert_paths))
+        info = pyres(lambda: open(os.path.join(pdir, "parsed_info.txt")).read())
+        info_ok = info[0] == "ok" and all(x in info[1] for x in (f"Build Number:         {case['bn']}", f"Product Version:      {ver_str(case['pv'])}",
+                                                                  f"Component Version:    {ver_str(case['cv'])}"))
+        s.expect(names == sorted(want_names) and bad is None and certs_ok and info_ok, shown,
+                 "`nxpimage sb21 parse` does not write exactly the LOAD data / certificates / header values of the file",
+                 {"files": names, "want": sorted(want_names), "bad": bad, "certs": certs_ok, "info": info_ok})
+    wk = os.path.join(tmp, "wrong.txt")
+    with open(wk, "w") as fh:
+        fh.write(bytes(b ^ 1 for b in bytes.fromhex(case["kek"])).hex())
+    res = pyres(lambda: CliRunner().invoke(nxpimage.main, ["sb21", "parse", "-b", out, "-k", wk, "-o", os.path.join(tmp, "p2")]))
+    s.expect(res[0] != "ok" or res[1].exit_code != 0, shown, "`nxpimage sb21 parse` succeeds with a wrong KEK", "exit code 0")
+    start = 208 + clen + sha + sig_len
+    pos = rng.choice([rng.randrange(0, 96 - 4), rng.randrange(start, len(file)), rng.randrange(start, len(file)), start + rng.randrange(0, 48)])
+    if 12 <= pos < 20:
+        pos = 40     # header padding / unchecked reserved bytes are not covered by anything the parser compares
+    tf = os.path.join(tmp, "tampered.sb2")
+    with open(tf, "wb") as fh:
+        fh.write(file[:pos] + bytes([file[pos] ^ (1 << rng.randrange(8))]) + file[pos + 1:])
+    p3 = os.path.join(tmp, "p3")
+    res = pyres(lambda: CliRunner().invoke(nxpimage.main, ["sb21", "parse", "-b", tf, "-k", kekf, "-o", p3]))
+    s.expect(res[0] != "ok" or res[1].exit_code != 0, shown, "`nxpimage sb21 parse` accepts a file with one flipped bit", {"byte": pos})
+    # ---- `nxpimage sb21 convert` -> YAML -> export: same file (keywrap draws 4 random bytes: same length only)
+    # (`convert` writes root certificates only: chains of depth 1; the YAML schema has no `call` / `reset` command, so
+    #  CommentedConfig refuses such a configuration - front-end limitation outside this property, reported, not judged)
+    if len(ch.cert_paths) == 1 and ch.cert_paths[0] in ch.root_paths and not ({"C", "R"} & set(kinds)):
+        conv = os.path.join(tmp, "converted.yaml")
+        res = pyres(lambda: CliRunner().invoke(nxpimage.main, ["sb21", "convert", "-f", "rt5xx", "-c", bd, "-o", conv] + sign + externs))
+        okv = res[0] == "ok" and res[1].exit_code == 0 and os.path.isfile(conv)
+        s.expect(okv, shown, "`nxpimage sb21 convert` fails on a well-formed BD file",
+                 (res[1].output[-300:], "".join(__import__("traceback").format_exception(*res[1].exc_info))[-600:]) if res[0] == "ok" and res[1].exc_info else res)
+        if okv:
+            out2 = os.path.join(tmp, "conv.sb2")
+            res = pyres(lambda: CliRunner().invoke(nxpimage.main, ["sb21", "export", "-c", conv, "-o", out2]))
+            f2 = pyres(lambda: open(out2, "rb").read()) if res[0] == "ok" and res[1].exit_code == 0 else ("E:cli", res[1].output[-300:] if res[0] == "ok" else res)
+            # random by design: 4 bytes inside a wrapped key blob; LOAD padding of `encrypt` with a disabled key blob
+            rnd = "kw" in kinds or any(len(c) > 6 and c[6][0] == "enc" and KEYBLOBS[c[6][1]]["end"] & 3 != 3 and c[4] % 16
+                                        for sc in case["sections"] for c in sc["cmds"])
+            # open finding C04-convert-fill-length: the YAML schema has no `length` for `fill`, `convert` drops it.  Predicate
+            # from the INPUT alone: the BD file holds a ranged fill whose length is not the default 4.
+            lossy = any(c[0] == "F" and c[3] != 4 for sc in case["sections"] for c in sc["cmds"])
+            weak = f2[0] == "ok" and len(f2[1]) == len(file) and f2[1][:96] == file[:96]
+            s.expect(weak, shown, "`nxpimage sb21 convert` + `export` of the converted YAML: no file, or one of different size / header than "
+                     "`export` of the BD file", _bdiff(f2, ("ok", file)))
+            if weak and not rnd:
+                s.expect(f2[1] == file, shown, "`nxpimage sb21 convert` + `export` of the converted YAML gives a different file than `export` of "
+                         "the BD file", _bdiff(f2, ("ok", file)), finding="C04-convert-fill-length" if lossy else None)
+
+
+def check_kek_len(ck, drv, s, case, chains, BootImageV20, BootImageV21):
+    v21 = case["version"] == 21
+    cls = BootImageV21 if v21 else BootImageV20
+    built = pyres(lambda: build_image(case, chains).export(padding=bytes(8)))
+    if built[0] != "ok":
+        return
+    file = built[1]
+    for n in (0, 1, 15, 17, 24, 31, 33, 48, 64):
+        kek = ck.rng.randbytes(n)
+        inp = {"case": case, "kek": kek.hex()}
+        s.note([case["nonce"], case["kek"], n], cls=f"len={n}")
+        r = pyres(lambda: cls.parse(file, kek=kek))
+        s.expect(r[0] != "ok", inp, "SPSDK parser returns content for a KEK of a length that is not the image's", n)
+        if drv is not None and n > 0:
+            pans = drv.ask(parser_model_line(file, kek, v21))
+            m = str(pans)
+            s.compare(inp, "ok" if r[0] == "ok" else "E", "ok" if m.startswith("ok:") else ("E" if m.startswith("E:") else m[:40]),
+                      "BootImageV2x.parse vs the Lean parser model for a KEK of another length")
 
 
 def _bdiff(a, b):
@@ -980,6 +1328,10 @@ def check_image(ck, drv, s, st, case, chains, n_flip, BootImageV20, BootImageV21
             if good_rom is not None:
                 st.compare(inp, "well-formed answer of the ROM model", str(ans)[:60], "driver answer")
         elif ans is not None:
+            if name[0] == "s" and name[1].isdigit():
+                # theorems image_section_byte_tampered_v21/_v20: one changed byte in the boot-section area is REFUSED
+                st.compare(inp, "E:rom", ans[:5], "compiled ROM model vs the theorem `image_section_byte_tampered`: a flipped bit in a "
+                           "boot section (header / header MAC / MAC table / ciphertext) is refused")
             if ans.startswith("ok:"):
                 f = rom_fields(ans)
                 ob = verify_obligation(f2, f)
